@@ -42,6 +42,8 @@ SPRAYS = [
     "~~struck~~", "- [ ] task", "- [x] done", "www.example.com", "http://example.com/path", "user@example.com", "<title>t</title>",
     "<script>x</script>", "<!-- pyml disable-next-line md009-->", "~single~", "text ~~a~~ and ~~b~~", "* [ ] star task", "[ ] not a task",
     "<xmp>", "mailto:me@example.com", "https://a.b/c?d=e&f=g", "~~~", "1. [X] ordered task", "<iframe src=\"x\">", "ftp://host/file",
+    # raw HTML blocks without any disallowed tag (lines ending in '<', split tags): the disallow filter must leave them alone
+    "<div>\nif (a <\n b)\n</div>", "<pre>\nx <\ny\n</pre>", "<!-- a <\n b -->", "<div> <", "<p\nclass='c'>", "<table><tr><\ntd>x</td></tr></table>",
 ]
 FM_VALID = ["---\ntitle: doc\n---\n", "---\na: 1\nb: two\n---\n", "---\nlist:\n  - x\n  - y\n---\n", "---  \nk: v\n---  \n"]
 FM_INVALID = ["---\njust some text\n---\n", "---\nk: v\n", "---\n\nk: v\n---\n", "---\nk: [unclosed\n---\n", "----\nk: v\n----\n", " ---\nk: v\n ---\n"]
@@ -148,6 +150,9 @@ def run_items(items, job):
         trig = {k for k in pm.EXTENSIONS if TRIG[k](doc)}
         for k in pm.EXTENSIONS:
             if k in trig:
+                # not judged, but still parsed: the tokenizer instance then carries the history a
+                # multi-file run has (a document with this extension's syntax came before)
+                _ser(pm, T_one[k], doc)
                 continue
             s, h, _ = _ser(pm, T_one[k], doc)
             R.count("inertness_comparisons")
@@ -158,6 +163,8 @@ def run_items(items, job):
                 detail.setdefault("diff", {})[k] = [x for x in s if x not in base_s][:5]
             elif h != base_h:
                 v.add(f"enabling-{k}-changes-html-without-trigger")
+        if trig:
+            _ser(pm, T_all, doc)
         if not trig:
             s, h, _ = _ser(pm, T_all, doc)
             R.count("inertness_comparisons")
